@@ -1350,6 +1350,129 @@ v("C19", "m-option-unguarded", "cmd/protoc-gen-grpchan/protoc-gen-grpchan.go",
 v("C19", "new-option", "cmd/protoc-gen-grpchan/protoc-gen-grpchan.go",
   """		case "module":""", """		case "module", "mod":""", "R4", "option-names", "an undocumented option alias is accepted")
 
+# ------------------------------------------------------------------ behaviour-preserving refactors (must stay silent)
+def silent_all(name, edits, why, props):
+    for pr in props:
+        d = {"why": why, "edits": edits, "property": pr, "expect": "silent"}
+        VARIANTS.append((pr, "silent-" + name, d))
+
+silent_all("rename-frame-helpers", [
+    {"file": "inprocgrpc/in_process.go", "old": "writeMessage(", "new": "sendFrame(", "all": True},
+    {"file": "inprocgrpc/in_process.go", "old": "readMessage(", "new": "recvFrame(", "all": True},
+], "private helpers renamed", ["C01", "C02", "C03", "C04", "C05", "C06", "C08", "C20"])
+silent_all("rename-translator", [
+    {"file": "httpgrpc/client.go", "old": "statusFromContextError", "new": "ctxErrToStatus", "all": True},
+], "private translator renamed", ["C02", "C04", "C07", "C13"])
+silent_all("io-readall", [
+    {"file": "httpgrpc/client.go", "old": "ioutil.ReadAll", "new": "io.ReadAll", "all": True},
+    {"file": "httpgrpc/client.go", "old": "ioutil.NopCloser", "new": "io.NopCloser", "all": True},
+    {"file": "httpgrpc/client.go", "old": '	"io/ioutil"\n', "new": ""},
+    {"file": "httpgrpc/server.go", "old": "ioutil.ReadAll", "new": "io.ReadAll", "all": True},
+    {"file": "httpgrpc/server.go", "old": "ioutil.Discard", "new": "io.Discard", "all": True},
+    {"file": "httpgrpc/server.go", "old": '	"io/ioutil"\n', "new": ""},
+], "ioutil → io equivalents", ["C01", "C02", "C04", "C05", "C07", "C11"])
+silent_all("method-switch", [
+    {"file": "httpgrpc/server.go", "old": """		defer drainAndClose(r.Body)
+		if r.Method != "POST" {
+			w.Header().Set("Allow", "POST")
+			writeError(w, http.StatusMethodNotAllowed)
+			return
+		}
+
+		contentType := r.Header.Get("Content-Type")
+		codec := getUnaryCodec(contentType)""", "new": """		defer drainAndClose(r.Body)
+		switch r.Method {
+		case "POST":
+		default:
+			w.Header().Set("Allow", "POST")
+			writeError(w, http.StatusMethodNotAllowed)
+			return
+		}
+
+		contentType := r.Header.Get("Content-Type")
+		codec := getUnaryCodec(contentType)"""},
+], "if → switch in the method gate", ["C11", "C14", "C02", "C04"])
+silent_all("rename-locals-dohttpcall", [
+    {"file": "httpgrpc/client.go", "old": "rMuHeld", "new": "lockHandedOver", "all": True},
+    {"file": "httpgrpc/client.go", "old": "counter", "new": "nframes", "all": True},
+], "locals renamed in the response reader", ["C02", "C04", "C05", "C07"])
+silent_all("swap-channel-makes", [
+    {"file": "inprocgrpc/in_process.go", "old": """	requests := make(chan frame, 1)
+	responses := make(chan frame, 1)""", "new": """	responses := make(chan frame, 1)
+	requests := make(chan frame, 1)"""},
+], "two independent statements swapped", ["C01", "C05", "C20"])
+silent_all("milliseconds-method", [
+    {"file": "httpgrpc/client.go", "old": "		millis := int64(timeout / time.Millisecond)", "new": "		millis := timeout.Milliseconds()"},
+], "Duration.Milliseconds() is the same floor division", ["C09"])
+silent_all("codes-literals", [
+    {"file": "httpgrpc/codes.go", "old": """	case codes.OK:
+		return http.StatusOK
+	case codes.Canceled:
+		return http.StatusBadGateway""", "new": """	case codes.Canceled:
+		return 502
+	case codes.OK:
+		return 200"""},
+], "table rows reordered, literals instead of named constants", ["C14"])
+silent_all("rename-unwrap", [
+    {"file": "intercept.go", "old": "unwrap(", "new": "rootConn(", "all": True},
+], "private helper renamed", ["C17"])
+silent_all("split-helper", [
+    {"file": "inprocgrpc/in_process.go", "old": """	strs := strings.SplitN(method[1:], "/", 2)
+	if len(strs) != 2 {
+		return status.Errorf(codes.Unimplemented, "malformed method name: %q", method)
+	}
+	serviceName := strs[0]
+	methodName := strs[1]""", "new": """	serviceName, methodName, okName := splitMethodName(method)
+	if !okName {
+		return status.Errorf(codes.Unimplemented, "malformed method name: %q", method)
+	}"""},
+    {"file": "inprocgrpc/in_process.go", "old": "var clientContextKey = ", "new": """func splitMethodName(method string) (string, string, bool) {
+	strs := strings.SplitN(method[1:], "/", 2)
+	if len(strs) != 2 {
+		return "", "", false
+	}
+	return strs[0], strs[1], true
+}
+
+var clientContextKey = """},
+], "method-name parsing extracted into a helper (Invoke only)", ["C12"])
+silent_all("register-helper", [
+    {"file": "httpgrpc/server.go", "old": """	for i := range desc.Methods {
+		md := desc.Methods[i]
+		h := handleMethod(svr, desc.ServiceName, &md, s.unaryInt, &s.opts)
+		s.mux.HandleFunc(path.Join(s.basePath, fmt.Sprintf("%s/%s", desc.ServiceName, md.MethodName)), h)
+	}""", "new": """	for i := range desc.Methods {
+		md := desc.Methods[i]
+		h := handleMethod(svr, desc.ServiceName, &md, s.unaryInt, &s.opts)
+		pattern := path.Join(s.basePath, fmt.Sprintf("%s/%s", desc.ServiceName, md.MethodName))
+		s.mux.HandleFunc(pattern, h)
+	}"""},
+], "pattern bound to a local before registration", ["C12", "C15"])
+silent_all("early-return-to-else", [
+    {"file": "inprocgrpc/in_process.go", "old": """	if s.sendClosed {
+		return fmt.Errorf("send closed")
+	}
+	if isNil(m) {
+		return status.Errorf(codes.Internal, "message to send is nil")
+	}
+
+	m, err := s.cloner.Clone(m)
+	if err != nil {
+		return err
+	}
+	return writeMessage(s.ctx, s.svrCtx, s.requests, frame{data: m})""", "new": """	if s.sendClosed {
+		return fmt.Errorf("send closed")
+	} else if isNil(m) {
+		return status.Errorf(codes.Internal, "message to send is nil")
+	} else {
+		m, err := s.cloner.Clone(m)
+		if err != nil {
+			return err
+		}
+		return writeMessage(s.ctx, s.svrCtx, s.requests, frame{data: m})
+	}"""},
+], "early returns turned into an if/else chain", ["C01", "C05", "C06", "C20"])
+
 
 def main():
     if os.path.isdir(OUT):
